@@ -176,6 +176,8 @@ func runUpgradeCase(ta *TestApp, seed uint64, idx int, rep *Report, profile stri
 		kind       int
 		start, end int64
 		ov         sdk.Coins
+		dv, df     sdk.Coins
+		seq, num   uint64
 	}
 	accs := map[string]accBefore{}
 	for _, a := range shiftAddrs {
@@ -191,8 +193,20 @@ func runUpgradeCase(ta *TestApp, seed uint64, idx int, rep *Report, profile stri
 			en := st + 1 + rng.I64n(3*365*86400)
 			ov := sdk.NewCoins(sdk.NewCoin(BondDenom, sdk.NewIntFromBigInt(rng.LogUniform(15))))
 			bacc := app.AccountKeeper.NewAccountWithAddress(ctx, addr).(*authtypes.BaseAccount)
-			app.AccountKeeper.SetAccount(ctx, vestingtypes.NewContinuousVestingAccount(bacc, ov, st, en))
-			accs[a] = accBefore{kind: 2, start: st, end: en, ov: ov}
+			bacc.Sequence = uint64(rng.Intn(50))
+			cva := vestingtypes.NewContinuousVestingAccount(bacc, ov, st, en)
+			// the account may have staked part of its coins: the delegation bookkeeping of the vesting account
+			if rng.Chance(60) {
+				d := new(big.Int).Div(ov[0].Amount.BigInt(), bi(int64(2+rng.Intn(5))))
+				if d.Sign() > 0 {
+					cva.DelegatedVesting = sdk.NewCoins(sdk.NewCoin(BondDenom, sdk.NewIntFromBigInt(d)))
+				}
+				if rng.Chance(40) {
+					cva.DelegatedFree = sdk.NewCoins(sdk.NewCoin(BondDenom, sdk.NewIntFromBigInt(rng.LogUniform(9))))
+				}
+			}
+			app.AccountKeeper.SetAccount(ctx, cva)
+			accs[a] = accBefore{kind: 2, start: st, end: en, ov: ov, dv: cva.DelegatedVesting, df: cva.DelegatedFree, seq: bacc.Sequence, num: bacc.AccountNumber}
 		}
 	}
 
@@ -332,7 +346,9 @@ func runUpgradeCase(ta *TestApp, seed uint64, idx int, rep *Report, profile stri
 			rep.Eval("C16.shift_leaves_other_accounts", isBase, idx, 2, a)
 		default:
 			cva, ok := acc.(*vestingtypes.ContinuousVestingAccount)
-			rep.Eval("C16.shifted_account_keeps_amounts", ok && cva.OriginalVesting.IsEqual(b.ov) && cva.DelegatedVesting.IsZero() && cva.DelegatedFree.IsZero(), idx, 2, a)
+			rep.Eval("C16.shifted_account_keeps_amounts", ok && cva.OriginalVesting.IsEqual(b.ov) && cva.DelegatedVesting.IsEqual(b.dv) && cva.DelegatedFree.IsEqual(b.df), idx, 2,
+				fmt.Sprintf("%s: original %s delegated vesting %s delegated free %s before the upgrade", a, b.ov, b.dv, b.df))
+			rep.Eval("C16.shifted_account_keeps_identity", ok && cva.Sequence == b.seq && cva.AccountNumber == b.num, idx, 2, a)
 			if ok {
 				ws := time.Unix(b.start, 0).UTC().AddDate(1, 0, 0).Unix()
 				we := time.Unix(b.end, 0).UTC().AddDate(1, 0, 0).Unix()
